@@ -62,7 +62,9 @@ class LockstepHook:
             return
         bad = None
         if exp[0] == "raise":
-            if rec.outcome != "raise" or not any(c.__name__ == exp[1] for c in type(rec.exc).__mro__):
+            if rec.outcome == "return" and getattr(self, "errors_become_defaults", False):
+                pass      # HashClient with ignore_exc turns a server error reply into the call's default
+            elif rec.outcome != "raise" or not any(c.__name__ == exp[1] for c in type(rec.exc).__mro__):
                 bad = {"expected": list(exp), "got": rec.enc_outcome()}
         elif rec.outcome == "raise":
             bad = {"expected": ["return", repr(exp[1])[:200]], "got": rec.enc_outcome()}
